@@ -72,7 +72,8 @@ pub fn gen_for(prop: &str, case: &Case) -> Gen {
 
 fn tune(prop: &str, cfg: &mut GenCfg, seed: u64) {
     let mut r = Rng::new(mix(seed, 0x7E57));
-    if matches!(prop, "C01" | "C05") {
+    if matches!(prop, "C01" | "C05" | "C15") {
+        // now and then one commit adds more than a whole growth step (8 MiB)
         cfg.huge_value = seed % 16 == 0;
     }
     match prop {
